@@ -23,7 +23,9 @@ def gate_variant(ops_path):
         with open(ops_path) as f:
             for line in f:
                 if line.startswith("variant colfix "):
-                    return int(line.split()[2])
+                    v = int(line.split()[2])
+                    nxt = f.readline()
+                    return v + (2 * int(nxt.split()[2]) if nxt.startswith("variant eoffix ") else 0)
                 if line.startswith("case "):
                     break
     except OSError:
@@ -313,7 +315,7 @@ def run(ctx):
         # generator quality gate: the run must exercise reuse and error-free comparisons
         ctx.oblige("run:coverage-floor", evals >= 1000 and tot["clean"] * 5 >= evals and tot["reused_inner"] >= evals // 2,
                    "evals=%d clean=%d reused_inner=%d" % (evals, tot["clean"], tot["reused_inner"]))
-    ctx.coverage["gate_variant"] = ("with column/range repair (835fde5)" if getattr(ctx, "gate_variant", 0) else "without the column/range repair") + " - detected by probing the real parser on the distinguishing input"
+    ctx.coverage["gate_variant"] = ("with column/range repair (835fde5)" if getattr(ctx, "gate_variant", 0) & 1 else "without the column/range repair") + ("; with the EOF-look-ahead repair" if getattr(ctx, "gate_variant", 0) & 2 else "; without the EOF-look-ahead repair") + " - detected by probing the real parser on the distinguishing input"
     ctx.coverage.update({
         "evaluations": evals, "distinct_nontrivial": len(distinct),
         "rule": "one evaluation = one step of an edit history: Tree::edit on the current tree, incremental parse with it (logger on) and "
